@@ -22,7 +22,7 @@ type c03Scenario struct {
 	Critical bool   `json:"critical"` // victim critical?
 	Victim   string `json:"victim"`   // role name
 	Kind     string `json:"kind"`     // failed lost killed exec-failure exec-failure+status agent-failure agent-failure+status internal-error basic-terminated
-	Instant  string `json:"instant"`  // idle | transition | grace | sibling
+	Instant  string `json:"instant"`  // idle | transition | late-reply | grace | sibling | after-reconnect | mixed
 	Delay    bool   `json:"delay"`    // watcher delay point on
 }
 
@@ -45,9 +45,16 @@ func c03Scenarios(c *vlib.Ctx) []c03Scenario {
 			}
 		}
 	}
-	instants := []string{"transition", "grace", "sibling", "after-reconnect", "mixed"}
+	// late-reply: like transition, and the victim's own (healthy) answer to the outstanding command
+	// reaches the core after the terminal update: the ERROR is overwritten by a stale state report
+	for _, st := range []string{"CONFIGURED", "RUNNING"} {
+		for _, k := range []string{"failed", "lost"} {
+			out = append(out, c03Scenario{State: st, Critical: true, Kind: k, Instant: "late-reply", Delay: k == "lost"})
+		}
+	}
+	instants := []string{"transition", "grace", "sibling", "after-reconnect", "mixed", "late-reply"}
 	r := c.SubRand(303)
-	n := 15
+	n := 18
 	if c.Tier == "thorough" {
 		n = 0
 		for _, st := range []string{"CONFIGURED", "RUNNING"} {
@@ -149,7 +156,7 @@ func c03Run(c *vlib.Ctx, idx int, sc c03Scenario) {
 	gated := false
 	s.Master.OnCommand = func(t *simmesos.LaunchedTask, cmd *simmesos.CommandSeen) simmesos.Reply {
 		if gated {
-			return simmesos.Reply{Kind: "ok", Gate: gate}
+			return simmesos.Reply{Kind: "ok", Gate: gate, AfterDeath: sc.Instant == "late-reply"}
 		}
 		return simmesos.Reply{Kind: "ok"}
 	}
@@ -221,7 +228,7 @@ func c03Run(c *vlib.Ctx, idx int, sc c03Scenario) {
 	ev0 := len(s.Events())
 	var transDone chan error
 	switch sc.Instant {
-	case "transition":
+	case "transition", "late-reply":
 		// a transition command is outstanding at the executors while the fault hits
 		gated = true
 		op := pb.ControlEnvironmentRequest_START_ACTIVITY
@@ -295,7 +302,10 @@ func c03Run(c *vlib.Ctx, idx int, sc c03Scenario) {
 	c.Count("faults_injected", 1)
 	c.Count("faults_"+sc.Kind, 1)
 	t0 := time.Now()
-	if sc.Instant == "transition" {
+	if sc.Instant == "late-reply" {
+		c.Count("faults_with_late_healthy_reply", 1)
+	}
+	if sc.Instant == "transition" || sc.Instant == "late-reply" {
 		time.Sleep(50 * time.Millisecond)
 		gated = false
 		close(gate)
@@ -349,7 +359,7 @@ func c03Run(c *vlib.Ctx, idx int, sc c03Scenario) {
 		}
 		c.Count("error_reached", 1)
 		c.Count("error_latency_ms", time.Since(t0).Milliseconds())
-		if sc.State == "RUNNING" && sc.Instant != "transition" {
+		if sc.State == "RUNNING" && sc.Instant != "transition" && sc.Instant != "late-reply" {
 			// the end of the run is recorded
 			time.Sleep(300 * time.Millisecond)
 			recorded := false
@@ -384,18 +394,18 @@ func c03Run(c *vlib.Ctx, idx int, sc c03Scenario) {
 		for i := 0; i < 12; i++ {
 			st := sample()
 			want := sc.State
-			if sc.Instant == "transition" {
+			if sc.Instant == "transition" || sc.Instant == "late-reply" {
 				// the racing transition itself legitimately changes the state
 				if healthy(st) {
 					time.Sleep(250 * time.Millisecond)
 					continue
 				}
 			}
-			if st != want && sc.Instant != "transition" {
+			if st != want && sc.Instant != "transition" && sc.Instant != "late-reply" {
 				changed = st
 				break
 			}
-			if sc.Instant == "transition" && !healthy(st) {
+			if (sc.Instant == "transition" || sc.Instant == "late-reply") && !healthy(st) {
 				changed = st
 				break
 			}
